@@ -1,5 +1,5 @@
 import H264.C07
-import H264.BitsProof
+import H264.BitsProofC07
 /-! # C07 — Bit reader decodes every u(n)/ue(v)/se(v) codeword to the standard's value
 
 Model: `Bits.Src = (remaining bits MSB first, what the byte source reports when they run out)`; `readBits`, `readUe`,
